@@ -556,7 +556,11 @@ impl Project {
                 }
             }
             let own_rule = !s.phony && (!shared_rule || (!plain && sr.pct(15)));
-            let rname = if s.phony {
+            // a rule without a command is as good as phony
+            let nocmd_rule = s.phony && !plain && sr.pct(20);
+            let rname = if nocmd_rule {
+                format!("nc{}", s.id)
+            } else if s.phony {
                 "phony".to_string()
             } else if own_rule {
                 format!("r{}", s.id)
@@ -598,7 +602,9 @@ impl Project {
             let mut binds: Vec<String> = Vec::new();
             let mut rule_text = String::new();
             // a phony step carries a description so that the state observer can name it
-            if s.phony {
+            if nocmd_rule {
+                rule_text.push_str(&format!("rule nc{}\n  description = D s{}\n", s.id, s.id));
+            } else if s.phony {
                 binds.push(format!("description = D s{}", s.id));
             } else if own_rule {
                 // literal command in a rule of its own, or bound at build level
